@@ -291,6 +291,10 @@ def check(ctx):
     # a pickled graph / processor describes the same object after loading: pickling hooks only drop rebuildable caches
     from ..rules import shared as _sh18
     _sh18.check_getstate_drops(ctx)
+    # ... and what *is* pickled along (the instance caches of a used processor) answers like a fresh processor: the
+    # memoised stores on the decode path are canonical (complete keys)
+    from ..rules import persist as _ps18
+    _ps18.check_decode_memos(ctx)
     edges.check_walks(ctx, categories={'copy-export'})
     ctx.floor('A8', 14, 'hash / fingerprint components')
     ctx.floor('A4', 4, 'copy / export walks')
